@@ -14,6 +14,7 @@ import (
 	"github.com/pingcap/errors"
 	"github.com/pingcap/failpoint"
 	"github.com/pingcap/kvproto/pkg/kvrpcpb"
+	"github.com/tikv/client-go/v2/config"
 	tikverr "github.com/tikv/client-go/v2/error"
 	"github.com/tikv/client-go/v2/internal/mockstore/mocktikv"
 	"github.com/tikv/client-go/v2/internal/simhook"
@@ -118,6 +119,9 @@ func (m mockFront) SendRequest(ctx context.Context, addr string, req *tikvrpc.Re
 
 var fpOnce sync.Once
 
+// restoreCfg undoes the global configuration change of the previous run.
+var restoreCfg func()
+
 func setKnobs(k Knobs) {
 	fpOnce.Do(func() { util.EnableFailpoints() })
 	_ = failpoint.Disable("tikvclient/twoPCRequestBatchSizeLimit")
@@ -136,6 +140,13 @@ func setKnobs(k Knobs) {
 		case "prewriteSecondarySleep":
 			_ = failpoint.Enable("tikvclient/"+site, fmt.Sprintf("return(%d)", ms))
 		}
+	}
+	if restoreCfg != nil {
+		restoreCfg()
+		restoreCfg = nil
+	}
+	if k.AsyncBatchGet {
+		restoreCfg = config.UpdateGlobal(func(c *config.Config) { c.EnableAsyncBatchGet = true })
 	}
 	_ = failpoint.Enable("tikvclient/injectLiveness", `return("reachable")`)
 	// The store's own poller re-reads the transaction safe point from PD every few seconds and overwrites the
@@ -221,6 +232,8 @@ func newWorld(s *simkit.Sim, sc *Scenario) (*World, error) {
 			srv.FollowerReads = srv.FollowerReads || sc.Reads.Replica != "" || sc.Reads.Stale
 			srv.NotReadyEvery = sc.Reads.NotReadyEvery
 		}
+		srv.RespLevelLockEvery = sc.Knobs.RespLevelLockEvery
+		srv.FallbackEvery = sc.Knobs.FallbackEvery
 		w.backend = srv
 		w.dumper = srv
 		w.ref = srv
@@ -565,6 +578,10 @@ func (w *World) runTxn(p *TxnProg, h *TxnHist) {
 				lctx = kv.NewLockCtx(forTS, wait, time.Now())
 				if op.RetVals {
 					lctx.InitReturnValues(len(op.Keys))
+					if op.OnlyIfEx {
+						lctx.LockOnlyIfExists = true // a key that does not exist is not locked
+						w.Sim.Count("probe.lock-only-if-exists")
+					}
 				} else if op.CheckExist {
 					lctx.InitCheckExistence(len(op.Keys))
 				}
@@ -601,6 +618,12 @@ func (w *World) runTxn(p *TxnProg, h *TxnHist) {
 					w.Sim.Count("probe.locked-with-conflict")
 				}
 				for _, k := range op.Keys {
+					if op.OnlyIfEx && op.RetVals {
+						if rv, ok := lctx.Values[k]; ok && !rv.AlreadyLocked && len(rv.Value) == 0 {
+							w.Sim.Count("probe.lock-only-if-exists.miss")
+							continue // the key does not exist: the call locked nothing on it
+						}
+					}
 					if aggCur != nil {
 						aggCur[k] = forTS // becomes a lock of the transaction only when the stage is done
 						if op.RetVals || op.CheckExist {
